@@ -63,6 +63,17 @@ def streams(ctx):
                 f += [str(len(b))] + b
             cases.append({"req": vlib.line("diag", *f), "tag": None, "eco": eco, "specs": specs})
 
+    # directed: every operator on a full and on a partial operand, the cache holding the versions around the operand, each of
+    # them in turn tagged `latest` (the anchor of a spec is compared with a latest version just below / at / above it)
+    for eco in ("npm", "crates"):
+        for op in ["", "^", "~", ">=", ">", "<=", "<", "="]:
+            for operand in ["1", "1.2", "1.2.3", "0.0", "0"]:
+                spec = op + operand
+                near = [v for v in gens.near_versions(operand) if "+" not in v][:9]
+                for L_ in near[:6]:
+                    f = [eco, "F", "1", spec, "1", "latest", L_, "1", str(len(near))] + near
+                    cases.append({"req": vlib.line("diag", *f), "tag": None, "eco": eco, "specs": [spec]})
+
     def derive(cs, impl):
         der = []
         for i, (c, o) in enumerate(zip(cs, impl)):
